@@ -217,7 +217,7 @@ def run_case(case):
         resolved = simprop.run_steps(sim, case, EXTRA)
         own = lambda: [v for v in sim.all_viol if v[0] in OWN and (OWN[v[0]] is None or v[1] in OWN[v[0]])]
         viol = None
-        if not own():
+        if not own() and not sim.viol:      # a monitor of another property stopped the case: state is tainted, no closing verdict
             sim.blocked = set()
 
             def done():
